@@ -373,6 +373,11 @@ func (m *vmMMU) reset() {
 		b[i] = vmJunk
 	}
 	*m = vmMMU{arena: m.arena, nframes: m.nframes}
+	// package state of vmm that one case must not leak into the next
+	protectReservedZeroedPage = false
+	ReservedZeroedFrame = 0
+	kernelPDT = PageDirectoryTable{}
+	earlyReserveLastUsed = tempMappingAddr
 	root := m.rawAlloc(0)
 	*vmEntryAt(root.Address(), 511) = uint64(root.Address()) | 3
 	m.cr3 = root.Address()
